@@ -1,0 +1,150 @@
+//go:build verif
+// +build verif
+
+package gocql
+
+import (
+	"bytes"
+	"fmt"
+	"net"
+)
+
+// VerifMeta describes result metadata as the frame parser understood it.
+type VerifMeta struct {
+	Flags          int
+	ColCount       int
+	ActualColCount int
+	PagingState    []byte
+	Columns        []ColumnInfo
+	// prepared (bind) metadata only
+	PKeys    []int
+	Keyspace string
+	Table    string
+}
+
+// VerifParsed describes one response frame as the frame parser understood it.
+type VerifParsed struct {
+	Kind     string // Go type of the parsed frame
+	Version  byte
+	Flags    byte
+	Stream   int
+	Op       byte
+	Length   int
+	TraceID  []byte
+	Warnings []string
+	Payload  map[string][]byte
+	Unread   int // body bytes the parser left unread (the row data of a rows result)
+
+	Error     error // ERROR frames: the error value the driver hands out
+	Supported map[string][]string
+	Class     string // AUTHENTICATE
+	Data      []byte // AUTH_CHALLENGE / AUTH_SUCCESS
+	Keyspace  string // set-keyspace result, schema change
+	Rows      *VerifMeta
+	NumRows   int
+	Iter      *Iter // rows result: iterator over the frame's rows, built the way executeQuery builds it
+
+	PreparedID []byte
+	Request    *VerifMeta
+	Response   *VerifMeta
+
+	Change string // schema change / status / topology events
+	Object string
+	Args   []string
+	Host   net.IP
+	Port   int
+}
+
+func verifMeta(m *resultMetadata) *VerifMeta {
+	return &VerifMeta{Flags: m.flags, ColCount: m.colCount, ActualColCount: m.actualColCount, PagingState: m.pagingState, Columns: m.columns}
+}
+
+// VerifParseFrame reads one frame (header and body) from raw with the connection's own
+// reader and parser, as a connection using protocol version proto and compressor comp
+// would.
+func VerifParseFrame(proto byte, raw []byte, comp Compressor) (*VerifParsed, error) {
+	r := bytes.NewReader(raw)
+	var hb [maxFrameHeaderSize]byte
+	head, err := readHeader(r, hb[:])
+	if err != nil {
+		return nil, err
+	}
+	f := newFramer(comp, proto)
+	if err := f.readFrame(r, &head); err != nil {
+		return nil, err
+	}
+	fr, err := f.parseFrame()
+	if err != nil {
+		return nil, err
+	}
+	h := fr.Header()
+	p := &VerifParsed{Kind: fmt.Sprintf("%T", fr), Version: byte(h.version), Flags: h.flags, Stream: h.stream, Op: byte(h.op), Length: h.length,
+		TraceID: f.traceID, Warnings: h.warnings, Payload: f.customPayload, Unread: len(f.buf)}
+	switch x := fr.(type) {
+	case error:
+		p.Error = x
+	case *supportedFrame:
+		p.Supported = x.supported
+	case *authenticateFrame:
+		p.Class = x.class
+	case *authChallengeFrame:
+		p.Data = x.data
+	case *authSuccessFrame:
+		p.Data = x.data
+	case *resultKeyspaceFrame:
+		p.Keyspace = x.keyspace
+	case *resultRowsFrame:
+		p.Rows = verifMeta(&x.meta)
+		p.NumRows = x.numRows
+		p.Iter = &Iter{meta: x.meta, framer: f, numRows: x.numRows}
+	case *resultPreparedFrame:
+		p.PreparedID = x.preparedID
+		p.Request = verifMeta(&x.reqMeta.resultMetadata)
+		p.Request.PKeys = x.reqMeta.pkeyColumns
+		p.Request.Keyspace = x.reqMeta.keyspace
+		p.Request.Table = x.reqMeta.table
+		p.Response = verifMeta(&x.respMeta)
+	case *schemaChangeKeyspace:
+		p.Change, p.Keyspace = x.change, x.keyspace
+	case *schemaChangeTable:
+		p.Change, p.Keyspace, p.Object = x.change, x.keyspace, x.object
+	case *schemaChangeType:
+		p.Change, p.Keyspace, p.Object = x.change, x.keyspace, x.object
+	case *schemaChangeFunction:
+		p.Change, p.Keyspace, p.Object, p.Args = x.change, x.keyspace, x.name, x.args
+	case *schemaChangeAggregate:
+		p.Change, p.Keyspace, p.Object, p.Args = x.change, x.keyspace, x.name, x.args
+	case *statusChangeEventFrame:
+		p.Change, p.Host, p.Port = x.change, x.host, x.port
+	case *topologyChangeEventFrame:
+		p.Change, p.Host, p.Port = x.change, x.host, x.port
+	}
+	return p, nil
+}
+
+// VerifPreparedInfo returns what the session's prepared-statement cache holds for stmt as
+// prepared on host hostID in keyspace (ok=false: no finished entry).
+func VerifPreparedInfo(s *Session, hostID, keyspace, stmt string) (id []byte, request, response *VerifMeta, ok bool) {
+	key := s.stmtsLRU.keyFor(hostID, keyspace, stmt)
+	s.stmtsLRU.mu.Lock()
+	val, found := s.stmtsLRU.lru.Get(key)
+	s.stmtsLRU.mu.Unlock()
+	if !found {
+		return nil, nil, nil, false
+	}
+	ifp := val.(*inflightPrepare)
+	select {
+	case <-ifp.done:
+	default:
+		return nil, nil, nil, false
+	}
+	if ifp.err != nil || ifp.preparedStatment == nil {
+		return nil, nil, nil, false
+	}
+	ps := ifp.preparedStatment
+	request = verifMeta(&ps.request.resultMetadata)
+	request.PKeys = ps.request.pkeyColumns
+	request.Keyspace = ps.request.keyspace
+	request.Table = ps.request.table
+	return ps.id, request, verifMeta(&ps.response), true
+}
